@@ -218,8 +218,25 @@ def gateway(ctx) -> None:
     ctx.check(len(un) == 1 and any('415' in core.src(x) for x in un[0].body), 'C19.gateway', ep, 'the unsupported-encoding error reaches the client as 415', ep.node, key='endpoint:415')
 
 
+def schema_cache(ctx) -> None:
+    """Decoding infers the table schema from the frame and memoises it by the frame layout: the memo key must distinguish what
+    the schema depends on - the (name, dtype) pairs *in column order* (a permuted frame has a different schema; an unordered key
+    serves the stale field order, so decode(encode(table)) mislabels the columns)."""
+    prog = ctx.prog
+    ff = prog.func(f'{CODEC}:Pandas.Schema.from_frame')
+    frame = ff.param_names[1]
+    keys = [a for a in core.walk_local(ff.node) if isinstance(a, ast.Assign) and core.src(a.targets[0]) == 'key']
+    ctx.floor('C19.schema-cache', len(keys), 1)
+    for a in keys:
+        ok, why = shared.order_preserving(a.value, f'{frame}.dtypes.items()')
+        ctx.check(ok, 'C19.schema-cache', ff, f'the schema memo key is an order-preserving image of `{frame}.dtypes.items()` (`{core.src(a.value)}`: {why or "ok"})', a, key='from_frame:key')
+    stores = [x for x in core.walk_local(ff.node) if isinstance(x, ast.Assign) and core.src(x.targets[0]) == 'cls._CACHE[key]']
+    ctx.check(len(stores) == 1 and f'*{frame}.columns' in core.src(stores[0].value), 'C19.schema-cache', ff, 'the inferred fields are named by the frame columns in their order', stores[0] if stores else ff.node, key='from_frame:columns')
+
+
 def run(ctx) -> None:
     gateway(ctx)
+    schema_cache(ctx)
     lookups(ctx)
     parse_rule(ctx)
     match_rule(ctx)
